@@ -5,8 +5,8 @@ cd "$(dirname "$0")/.."
 export GOFLAGS=-mod=mod GOPROXY=off GOSUMDB=off GOTOOLCHAIN=local CGO_ENABLED=0
 mkdir -p evidence replays corpus
 # 1. full .vo build of the Coq development (no -vos/-vok)
-timeout 3400 python3 tools/mk.py
+timeout 3400 python3 tools/mk.py || echo "WARNING: part of the Coq development failed to build; the checks that need it will report it"
 # 2. warm the Go build cache for the harness against /repo's current tree
 cp /repo/go.sum harness/go.sum
-(cd harness && timeout 1700 go build -tags verif -o /dev/null ./cmd/... )
+(cd harness && timeout 1700 go build -tags verif -o /dev/null ./cmd/... ) || echo "WARNING: part of the harness failed to build"; rm -f harness/go.sum
 echo setup done
